@@ -42,6 +42,7 @@ LEVEL = {
                  "run-time generator state unknown)",
 }
 LEVEL["decided"] += ' (R07.7) subclasses of the borrowed handle override nothing but aclose/__repr__ (the tables hold for them unchanged).'
+LEVEL["decided"] += " R07.3 is evaluated on the handle's public aclose for underlying iterators with both, none or just one of asend / athrow."
 
 BORROW_CLASSES = ["asynctools._BorrowedAsyncIterator", "asynctools._ScopedAsyncIterator"]
 FORWARDED = {"asend", "athrow"}
